@@ -114,6 +114,11 @@ pub enum Op {
     /// (`plant`), reopens n through libpathrs (Rust or C facade) and compares
     /// inodes itself. Outcome::Harness(0) = same inode, (1) = another inode.
     ReopenPrivateTable { path: String, flags: i32, plant: bool },
+    /// composite harness operation: the caller unshares its descriptor table, the supervisor plants
+    /// handles to a directory outside the root at the next free numbers of the thread-group leader's
+    /// table, then mkdir_all(path) through the library; Harness(0) ok, 1 returned handle outside the
+    /// root, 2 something was created in the planted directory
+    MkdirAllPrivateTable { path: String, mode: u32 },
     /// procfs through handle `handle` (None = global handle, C facade only)
     ProcOpen { handle: Option<usize>, base: Base, path: String, flags: i32, follow: bool },
     ProcReadlink { handle: Option<usize>, base: Base, path: String, bufsz: i64 },
@@ -184,6 +189,7 @@ impl OpSpec {
             Op::Rename { .. } => "rename",
             Op::Reopen { .. } => "reopen",
             Op::ReopenPrivateTable { .. } => "reopen",
+            Op::MkdirAllPrivateTable { .. } => "mkdir_all",
             Op::ProcOpen { follow: true, .. } => "proc_open_follow",
             Op::ProcOpen { follow: false, .. } => "proc_open",
             Op::ProcReadlink { .. } => "proc_readlink",
@@ -228,6 +234,7 @@ impl OpSpec {
             Op::Rename { src, dst, flags } => json!(["rename", src, dst, flags]),
             Op::Reopen { slot, flags } => json!(["reopen", slot, flags]),
             Op::ReopenPrivateTable { path, flags, plant } => json!(["reopen_private_table", path, flags, plant]),
+            Op::MkdirAllPrivateTable { path, mode } => json!(["mkdir_all_private_table", path, mode]),
             Op::ProcOpen { handle, base, path, flags, follow } => {
                 json!(["proc_open", handle, base_to_json(*base), path, flags, follow])
             }
@@ -287,6 +294,7 @@ impl OpSpec {
             "remove_all" => Op::RemoveAll { path: s(1) },
             "rename" => Op::Rename { src: s(1), dst: s(2), flags: n(3) as u32 },
             "reopen" => Op::Reopen { slot: n(1) as usize, flags: n(2) as i32 },
+            "mkdir_all_private_table" => Op::MkdirAllPrivateTable { path: s(1), mode: n(2) as u32 },
             "reopen_private_table" => Op::ReopenPrivateTable { path: s(1), flags: n(2) as i32, plant: a.get(3).and_then(|x| x.as_bool()).unwrap_or(false) },
             "proc_open" => Op::ProcOpen {
                 handle: a.get(1).and_then(|x| x.as_u64()).map(|x| x as usize),
@@ -542,8 +550,9 @@ fn harness_op(spec: &OpSpec) -> Option<Outcome> {
         Op::Sup { .. } => Some(Outcome::Harness(0)), // done by the supervisor at BEGIN_OP
         Op::ReopenPrivateTable { path, flags, plant } => {
             seam::hypercall(seam::HC_HARNESS, 0, 1);
+            unsafe { libc::unshare(libc::CLONE_FILES) };
+            seam::hypercall(seam::HC_HARNESS, 0, 2);
             let n = unsafe {
-                libc::unshare(libc::CLONE_FILES);
                 let p = std::ffi::CString::new(format!("/mnt/w/root/{path}")).unwrap();
                 libc::openat(libc::AT_FDCWD, p.as_ptr(), libc::O_PATH | libc::O_NOFOLLOW | libc::O_CLOEXEC)
             };
@@ -585,6 +594,72 @@ fn harness_op(spec: &OpSpec) -> Option<Outcome> {
             }
             seam::hypercall(seam::HC_HARNESS, 0, 0);
             Some(out)
+        }
+        Op::MkdirAllPrivateTable { path, mode } => {
+            seam::hypercall(seam::HC_HARNESS, 0, 1);
+            // the root is opened by the caller itself, after the unshare: descriptors that the
+            // supervisor opens later (the root slot of later runs) only exist in the leader's table
+            unsafe { libc::unshare(libc::CLONE_FILES) };
+            seam::hypercall(seam::HC_HARNESS, 0, 2);
+            let rootfd = unsafe { libc::openat(libc::AT_FDCWD, b"/mnt/w/root\0".as_ptr() as *const c_char, libc::O_PATH | libc::O_DIRECTORY | libc::O_CLOEXEC) };
+            // the numbers the library's descriptors will get in the private table are the lowest free
+            // ones; they are free in the leader's table as well (it has not changed since the unshare,
+            // apart from descriptors this thread cannot see)
+            let n0 = unsafe {
+                let d = libc::fcntl(rootfd, libc::F_DUPFD_CLOEXEC, 3);
+                if d >= 0 {
+                    libc::close(d);
+                }
+                d
+            };
+            if rootfd < 0 || n0 < 0 {
+                seam::hypercall(seam::HC_HARNESS, 0, 0);
+                return Some(Outcome::Harness(-2));
+            }
+            for k in 0..10 {
+                seam::hypercall(seam::HC_PLANT, (n0 + k) as u64, 2);
+            }
+            seam::hypercall(seam::HC_HARNESS, 0, 0);
+            let res: Result<OwnedFd, Outcome> = match spec.facade {
+                Facade::Rust => {
+                    let root = RootRef::from_fd(unsafe { BorrowedFd::borrow_raw(rootfd) });
+                    root.mkdir_all(Path::new(path), &std::fs::Permissions::from_mode(*mode)).map(OwnedFd::from).map_err(rust_err)
+                }
+                Facade::C => {
+                    let r = unsafe { pathrs_inroot_mkdir_all(rootfd, cs(path).as_ptr(), *mode) };
+                    if r >= 0 {
+                        Ok(unsafe { OwnedFd::from_raw_fd(r) })
+                    } else {
+                        Err(c_ret(r, true, None))
+                    }
+                }
+            };
+            seam::hypercall(seam::HC_HARNESS, 0, 1);
+            let mut code = 0i64;
+            let mut err: Option<Outcome> = None;
+            match res {
+                Ok(fd) => {
+                    // (through thread-self: /proc/self/fd is the leader's table)
+                    let p = crate::sys::readlinkat(libc::AT_FDCWD, format!("/proc/thread-self/fd/{}", fd.as_raw_fd()).as_bytes()).unwrap_or_default();
+                    if !(p == b"/mnt/w/root" || p.starts_with(b"/mnt/w/root/")) {
+                        code = 1;
+                    }
+                    drop(fd);
+                }
+                Err(o) => err = Some(o),
+            }
+            unsafe { libc::close(rootfd) };
+            // anything new in the planted directory?
+            if let Ok(ents) = crate::sys::listdir(b"/mnt/w/outside/landing") {
+                if ents.iter().any(|e| e.starts_with(b"pt-")) {
+                    code = 2;
+                }
+            }
+            for k in 0..10 {
+                seam::hypercall(seam::HC_PLANT, (n0 + k) as u64, 0);
+            }
+            seam::hypercall(seam::HC_HARNESS, 0, 0);
+            Some(if code != 0 { Outcome::Harness(code) } else { err.unwrap_or(Outcome::Harness(0)) })
         }
         Op::CloseSlot { slot: s } => {
             let fd = slot(*s);
